@@ -218,6 +218,26 @@ def _bool(b):
     return "true" if b else "false"
 
 
+def _only(sts, what, *preds):
+    """every statement of `sts` must satisfy one of `preds` (anything else would be code the model does not have)"""
+    for s in sts:
+        if not any(p(s) for p in preds):
+            raise ExtractError("%s: statement not covered by the model: %s" % (what, _describe(s)))
+
+
+def _describe(s):
+    extra = {k: v for k, v in s.__dict__.items() if k not in ("tag", "node", "body", "then", "els", "cond")}
+    return "%s %s" % (s.tag, extra)
+
+
+def _is_block_of(s, *preds):
+    return s.tag == "block" and all(any(p(x) for p in preds) for x in s.body)
+
+
+def _is_lock(s):
+    return s.tag == "lock" and s.mutex == "mutex_"
+
+
 def _flag(out, name, value, doc):
     out.append("/-- %s -/\ndef %s : Bool := %s" % (doc, name, _bool(value)))
 
@@ -266,6 +286,9 @@ def _queue_in_loop(docs, out):
             at = i
     if at is None:
         raise ExtractError("%s: the push_back is nested deeper than one block" % what)
+    is_push = lambda x: x is push[0]
+    is_wake = lambda x: _is_call(x, "this", "wakeup") or (x.tag == "if" and any(_is_call(y, "this", "wakeup") for y in x.then))
+    _only(sts, what, is_push, _is_lock, is_wake, lambda x: _is_block_of(x, is_push, _is_lock))
     wi, cond = _wake_condition(sts, what, {"isInLoopThread()": "isLoopThread = true", "callingPendingFunctors_": "calling = true",
                                            "looping_": "looping = true"})
     if wi < at:
@@ -299,6 +322,8 @@ def _quit(docs, out):
     store = _index(sts, lambda s: _is_set(s, "quit_", True))
     if len(store) != 1:
         raise ExtractError("%s: expected exactly one `quit_ = true` at the top level, found %d" % (what, len(store)))
+    _only(sts, what, lambda x: _is_set(x, "quit_", True),
+          lambda x: _is_call(x, "this", "wakeup") or (x.tag == "if" and any(_is_call(y, "this", "wakeup") for y in x.then)))
     wi, cond = _wake_condition(sts, what, {"isInLoopThread()": "isLoopThread = true"})
     out.append(prop_def("quitWakes", [("isLoopThread", "Bool")], cond,
                         "`EventLoop::quit`: the condition under which `wakeup()` is called after the flag store"))
@@ -325,6 +350,19 @@ def _loop(docs, out):
     cond = Tr({"quit_": "q"}).expr(loop.cond)
     tests_quit = cond == "¬ (q)"
     body = loop.body
+    is_drain = lambda x: _is_call(x, "this", "doPendingFunctors")
+    _only(before + after, what, lambda x: x.tag == "set" and x.target in ("looping_", "quit_") and x.value in (True, False),
+          is_drain, lambda x: _is_call(x, "this", "assertInLoopThread"))
+    _only(body, what, is_drain,
+          lambda x: _is_call(x, "activeChannels_", "clear"),
+          lambda x: x.tag == "other" and (mentions(x.node, "poll") or mentions(x.node, "iteration_")),
+          lambda x: x.tag == "set" and x.target in ("eventHandling_", "currentActiveChannel_", "pollReturnTime_"),
+          lambda x: x.tag == "call" and x.obj == "this" and x.name == "printActiveChannels",
+          lambda x: x.tag == "for" and x.range == "activeChannels_")
+    disp = [x for x in body if x.tag == "for" and x.range == "activeChannels_"]
+    if len(disp) == 1:
+        _only(disp[0].body, what, lambda x: x.tag == "set" and x.target == "currentActiveChannel_",
+              lambda x: x.tag == "call" and x.name == "handleEvent")
     drains = _index(body, lambda s: _is_call(s, "this", "doPendingFunctors"))
     dispatch = _index(body, lambda s: s.tag == "for" and s.range == "activeChannels_")
     polls = [i for i, s in enumerate(body) if any(x.get("kind") == "MemberExpr" and x.get("name") == "poll" for x in walk(s.node))]
@@ -385,6 +423,12 @@ def _do_pending(docs, out, append_under_lock):
         raise ExtractError("%s: the `for` does not call the functors" % what)
     if any(s.tag == "lock" for s in sts[:runs[0] + 1]):
         raise ExtractError("%s: functors run with mutex_ held (not modelled)" % what)
+    _only(sts, what, lambda x: x.tag == "decl" and x.names == [batch],
+          lambda x: x.tag == "set" and x.target == "callingPendingFunctors_" and x.value in (True, False),
+          lambda x: x is sts[take], lambda x: x.tag == "for" and x.range == batch, _is_lock)
+    if sts[take].tag == "block":
+        _only(sts[take].body, what, _is_lock, lambda x: mentions(x.node, "pendingFunctors_") and mentions(x.node, batch))
+    _only(sts[runs[0]].body, what, lambda x: x.tag == "invoke")
     st = _index(sts, lambda s: _is_set(s, "callingPendingFunctors_", True))
     sf = _index(sts, lambda s: _is_set(s, "callingPendingFunctors_", False))
     _flag(out, "callingSetBeforeSwap", len(st) == 1 and st[0] < take,
